@@ -8,7 +8,7 @@ interaction callable wrapped — event stream (kind, indices, dt, centreRight, b
 row, query time) equal to the model's, bit for bit; drive rows and interaction matrices handed to
 `update_H`/`make_H` equal to the model's permuted ones (exact).
 Oracle (always on, real code): dense reference evolution (scipy expm of the piecewise-constant
-Hamiltonian built here from the docstring formula) vs `run_mps` occupation and energy, reordering
+Hamiltonian built here from the docstring formula) vs every observable `run_mps` reports (occupation, correlation matrix, energy, energy variance, requested in varying sets and ORDERS), reordering
 on/off, local drives, phases, XY, SLM mask.
 """
 from __future__ import annotations
@@ -265,14 +265,23 @@ def dense_reference(om, de, ph, Ufun, times, xy, psi0=None):
     psi[0] = 1
     if psi0 is not None:
         psi = np.array(psi0, dtype=complex)
+    def corr(v):
+        return [[(v.conj() @ N[i] @ N[j] @ v).real for j in range(n)] for i in range(n)]
+
+    def var(v, h):
+        hv = h @ v
+        return (hv.conj() @ hv).real - (v.conj() @ hv).real ** 2
     occ = [[(psi.conj() @ N[j] @ psi).real for j in range(n)]]
     en = [(psi.conj() @ H(0) @ psi).real]
+    cm, ev2 = [corr(psi)], [var(psi, H(0))]
     for k in range(ns):
         h = H(k)
         psi = sla.expm(-1j * h * (times[k + 1] - times[k]) * 1e-3) @ psi
         occ.append([(psi.conj() @ N[j] @ psi).real for j in range(n)])
         en.append((psi.conj() @ h @ psi).real)
-    return np.array(occ), np.array(en)
+        cm.append(corr(psi))
+        ev2.append(var(psi, h))
+    return np.array(occ), np.array(en), np.array(cm), np.array(ev2)
 
 
 def gen_dense(rng, nmax, force_cycle=False):
@@ -309,8 +318,16 @@ def gen_dense(rng, nmax, force_cycle=False):
         raw = [rng.choice([1, 2, 3]) * rng.choice([1, -1, 1j]) for _ in strs]
         nrm = math.sqrt(sum(abs(a) ** 2 for a in raw))
         init = {b: [(a / nrm).real, (a / nrm).imag] for b, a in zip(sorted(strs), raw)}
+    names = ["occupation", "correlation_matrix", "energy", "energy_variance"]
+    r = rng.random()
+    if r < 0.3:
+        obs = ["correlation_matrix", "occupation"] + rng.sample(["energy", "energy_variance"], rng.randint(0, 2))
+    elif r < 0.45:
+        obs = ["occupation", "energy"]
+    else:
+        obs = rng.sample(names, rng.randint(1, 4))
     return dict(n=n, ns=ns, times=times, x=x, xy=xy, U=U, masked=masked, slm=slm, om=om, de=de, ph=ph, dt=dt,
-                relabel=relabel, init=init)
+                relabel=relabel, init=init, obs=obs)
 
 
 def dense_tolerance(c, precision):
@@ -337,8 +354,15 @@ def dense_check(c, precision=1e-5):
     init = c.get("init")
     amps1 = {b: complex(*a) for b, a in init.items()} if init else None
     psi0 = expected_dense(c["n"], amps1).numpy() if init else None
-    rocc, ren = dense_reference(c["om"], c["de"], c["ph"], Ufun, c["times"], c["xy"], psi0)
+    rocc, ren, rcm, rvar = dense_reference(c["om"], c["de"], c["ph"], Ufun, c["times"], c["xy"], psi0)
     tol_o, tol_e = dense_tolerance(c, precision)
+    # which observables are requested, and in which ORDER (callbacks at one time share the normalised state copy, so
+    # the order is part of the input): default = the two the oracle always had
+    order = c.get("obs") or ["occupation", "energy"]
+    from pulser.backend import CorrelationMatrix, EnergyVariance
+    mk = {"occupation": Occupation, "energy": Energy, "correlation_matrix": CorrelationMatrix, "energy_variance": EnergyVariance}
+    scale = tol_e / tol_o
+    tols = {"occupation": tol_o, "correlation_matrix": tol_o, "energy": tol_e, "energy_variance": 3 * scale * tol_e}
     stats = {}
     res_by = {}
     # Two legs of the same physics. Two-site TDVP is only accurate when strongly coupled atoms are neighbouring
@@ -365,7 +389,7 @@ def dense_check(c, precision=1e-5):
             # leg 2: atom i sits at chain position rl[i], so its symbol is the chain string's symbol at rl[i]
             amps = amps1 if not reorder else {"".join(b[a] for a in rl): v for b, v in amps1.items()}
             extra["initial_state"] = MPS.from_state_amplitudes(eigenstates=("r", "g"), amplitudes=amps)
-        cfg = compat.mps_config(observables=[Occupation(evaluation_times=ev), Energy(evaluation_times=ev)],
+        cfg = compat.mps_config(observables=[mk[o](evaluation_times=ev) for o in order],
                                 optimize_qubit_ordering=reorder, dt=c["dt"], precision=precision, **extra)
         try:
             import contextlib
@@ -378,24 +402,31 @@ def dense_check(c, precision=1e-5):
             p = perms[-1]
             stats["perm"] = p
             stats["perm_self_inverse"] = [p.index(a) for a in range(len(p))] == p
-        if [round(t, 12) for t in res.get_result_times("occupation")] != [round(t, 12) for t in ev]:
-            return f"occupation recorded at {res.get_result_times('occupation')!r}, due at {ev!r}", None, stats
-        occ = np.array([o.numpy() for o in res.occupation])
-        en = np.array([float(e) for e in res.energy])
-        ref = rocc if not reorder else rocc[:, rl]
-        eo, ee = float(np.abs(occ - ref).max()), float(np.abs(en - ren).max())
-        stats[reorder] = (eo / tol_o, ee / tol_e)
-        res_by[reorder] = (eo, ee, tuple(res.atom_order))
+        errs = {}
+        for o in order:
+            if [round(t, 12) for t in res.get_result_times(o)] != [round(t, 12) for t in ev]:
+                return f"{o} recorded at {res.get_result_times(o)!r}, due at {ev!r}", None, stats
+            got = np.array([np.real(v.numpy() if hasattr(v, "numpy") else np.asarray(v)) for v in getattr(res, o)], dtype=float)
+            if o == "occupation":
+                ref = rocc if not reorder else rocc[:, rl]
+            elif o == "correlation_matrix":
+                ref = rcm if not reorder else rcm[:, rl][:, :, rl]
+            else:
+                ref = ren if o == "energy" else rvar
+            errs[o] = float(np.abs(got - ref).max())
+        stats[reorder] = tuple(errs[o] / tols[o] for o in order)
+        res_by[reorder] = (errs, tuple(res.atom_order))
         if tuple(res.atom_order) != tuple(f"q{i}" for i in range(c["n"])):
             return f"results not in register order: {res.atom_order} (reordering {reorder})", None, stats
+    bad_leg = {r: [o for o in order if res_by[r][0][o] > tols[o]] for r in (False, True)}
     for reorder in (False, True):
-        eo, ee, _ = res_by[reorder]
-        if eo > tol_o or ee > tol_e:
+        if bad_leg[reorder]:
             klass = None
-            if reorder and res_by[False][0] <= tol_o and res_by[False][1] <= tol_e:
+            if reorder and not bad_leg[False]:
                 klass = "mps-reordered-run-deviates-dense"   # only the reordered run is wrong
-            return (f"run_mps deviates from dense evolution (reordering {'on' if reorder else 'off'}): "
-                    f"|d occupation| = {eo:.3e} (tol {tol_o:.3e}), |d energy| = {ee:.3e} (tol {tol_e:.3e})"), klass, stats
+            what = ", ".join(f"|d {o}| = {res_by[reorder][0][o]:.3e} (tol {tols[o]:.3e})" for o in order)
+            return (f"run_mps deviates from dense evolution (reordering {'on' if reorder else 'off'}, observables requested "
+                    f"in the order {order}): {what}"), klass, stats
     return None, None, stats
 
 
@@ -571,11 +602,14 @@ def check(rep: Report, tier: str, seed: int) -> None:
     rep.extra["d1_variant_hits"] = d1_hits
 
     # ---- 2. dense-evolution oracle on the real back-end (always on)
-    ndense = 6 if quick else 40
+    ndense = 8 if quick else 48
     worst = 0.0
     t0 = time.time()
     for di in range(ndense):
         c = gen_dense(rng, 5 if quick else 6, force_cycle=(di % 6 == 0))
+        if di % 4 == 1 and c["obs"][:2] != ["correlation_matrix", "occupation"]:
+            # always present: the correlation callback first (it leaves the shared state copy centred on the last site)
+            c["obs"] = ["correlation_matrix", "occupation"] + [o for o in c["obs"] if o in ("energy", "energy_variance")]
         msg, klass, stats = dense_check(c)
         if c.get("init"):
             rep.hist("dense_user_initial_state_perm_self_inverse", stats.get("perm_self_inverse"))
@@ -585,6 +619,7 @@ def check(rep: Report, tier: str, seed: int) -> None:
         for leg in (False, True):
             if leg in stats:
                 worst = max(worst, *stats[leg])
+        rep.hist("dense_observable_order", ">".join(o[:4] for o in c.get("obs", [])))
         if msg:
             rep.fail(msg, dict(_ser(c), dense=True), klass=klass)
     rep.extra["dense_worst_error_over_tolerance"] = worst
